@@ -52,6 +52,7 @@ def tree_hashes(repo=None):
 def _key(repo, flavour):
     h = hashlib.sha256()
     h.update(" ".join(FLAGS[flavour]).encode())
+    h.update(os.path.abspath(repo).encode())      # (the python files are symlinks into that tree)
     for m in MODS:
         c = os.path.join(repo, "fastparquet", m + ".c")
         if os.path.exists(c):
